@@ -22,7 +22,7 @@ def jobs(tier, seed):
     from props.dpt_common import all_classes, chunks
     from xknx.dpt.dpt import DPTNumeric
     names = [c.__name__ for c in all_classes() if issubclass(c, DPTNumeric)]
-    budget = (45, 40) if tier == "quick" else (1200, 400)
+    budget = (45, 40) if tier == "quick" else (240, 120)
     from props.c08 import is_float_coded
     heavy = [n for n in names if is_float_coded(n) or _cls(n).dpt_main_number == 14]
     light = [n for n in names if n not in heavy]
